@@ -21,3 +21,20 @@ PROPS["C14"] = dict(
     assumptions=ASSUME_COMMON + ["operand contents that are not enumerated come from a splitmix64 stream seeded by VERIF_SEED"],
 )
 
+
+PROPS["C03"] = dict(
+    name="c03", sources=["props/c03.cpp"], engine="enumerator",
+    builds=[("asan", "native"), ("asan", "noasm")],
+    builds_thorough=[("asan", "native"), ("asan", "noasm"), ("asan", "portable"), ("asan", "noti"), ("plain", "native")],
+    level="exploration",
+    rule=("Enumerated: every length 0..2304 x 7 ciphers x {stream, xor, xor_ic, crypto_stream aliases} x CPU masks {all, -avx2, -ssse3, none} "
+          "(dispatch: dolbeau-avx2/ssse3/ref ChaCha20; xmm6int-avx2 / xmm6 asm / xmm6int-sse2 / ref Salsa20) x build variants; initial counters from "
+          "{0, 1, random, 2^32-16..2^32+16, hi-word random with low word 2^32-16.., 2^64-17..2^64-1, IETF: largest that fits and 0..2 below}; "
+          "counter walk: every start within +-17 blocks of 2^32, 2^33, 2^64 (wrap) and 0xffffffff00000000 x 16 lengths; IETF overflow probes in forked children "
+          "(must end in the misuse handler); 6000 random/structured core-function cases. Oracle: ref/stream.hpp models evaluated block-by-block from integer counters "
+          "(validated against RFC 8439, draft-xchacha, Salsa20 spec and NaCl vectors). Non-trivial = len>0 and (len%64!=0 or counter within 16 blocks of a carry or non-default backend); "
+          "distinct = (build, cipher, form, len, mask, counter, alignment)."),
+    exhaustive_axes="lengths 0..2304 per cipher/form/mask; counter starts +-17 around each carry boundary",
+    assumptions=ASSUME_COMMON + ["64-bit ChaCha20/Salsa20 counters wrap modulo 2^64 (model choice; all backends agree)",
+                                 "keys/nonces/messages not enumerated come from a splitmix64 stream seeded by VERIF_SEED"],
+)
